@@ -997,7 +997,6 @@ def check_cases(ctx, prop: str, cases: list[dict]) -> None:
 
 
 # ======================================================================= non-finite RESULTS from finite inputs (C13)
-FLOAT_HUGE = Fraction(2) ** 1030          # an exact value beyond this cannot be a finite double (max ~ 2**1024)
 EXTREME_POOL = [1e200, -1e200, 1e308, -1e308, 1.5e154, 5e-324, -5e-324, 1e-320, 1e-200, 2.0, 1.0, -1.0, 0.5, 3.0, 1e100]
 
 NONFINITE_TEMPLATES: list[tuple[dict, list[dict[str, float]]]] = [
@@ -1021,19 +1020,65 @@ NONFINITE_TEMPLATES: list[tuple[dict, list[dict[str, float]]]] = [
 ]
 
 
-def exact_value(a: Any, env: dict[str, Any]) -> Fraction | None:
-    """The exact rational value of the expression on finite inputs (None = undefined)."""
+def _fdiv(x: float, y: float) -> float:
+    return math.nan if y == 0 or math.isnan(x) or math.isnan(y) else x / y
+
+
+def _fminmax(f, x: float, y: float) -> float:
+    return math.nan if math.isnan(x) or math.isnan(y) else f(x, y)
+
+
+def float_eval(a: Any, env: dict[str, Any]) -> float:
+    """Independent IEEE evaluation of the expression in standard order (finite inputs; NaN-strict, x/0 = NaN)."""
+    if a[0] == "m":
+        return float(Fraction(env[str(a[1])]))
+    if a[0] == "c":
+        return float(Fraction(a[1]))
+    if a[0] == "un":
+        v = float_eval(a[2], env)
+        return _fminmax(max, v if a[1] == "consumption" else -v, 0.0)
+    _, op, l, r = a
+    x, y = float_eval(l, env), float_eval(r, env)
+    if op == "+":
+        return x + y
+    if op == "-":
+        return x - y
+    if op == "*":
+        return x * y
+    if op == "/":
+        return _fdiv(x, y)
+    return _fminmax(max if op == "max" else min, x, y)
+
+
+def postfix_float(steps: list[str], env: dict[str, Any]) -> float | None:
+    """The same in the order of the real post-fix program (a FILTER: `a*b/c` is compiled as `a*(b/c)`, and an
+    intermediate overflow may or may not survive a different order).  None = malformed program."""
+    st: list[float] = []
     try:
-        return arith(a, {i: Fraction(env[str(i)]) for i in ast_ids(a)})
-    except Undefined:
+        for s in steps:
+            if s.startswith("#"):
+                st.append(float(Fraction(env[s.partition(":")[0][1:]])))
+            elif s.startswith("c:"):
+                st.append(float(Fraction(s[2:])))
+            elif s in ("consumption", "production"):
+                v = st.pop()
+                st.append(_fminmax(max, v if s == "consumption" else -v, 0.0))
+            elif s == "(" or s.startswith("clip("):
+                continue
+            else:
+                y = st.pop()
+                x = st.pop()
+                st.append(x + y if s == "+" else x - y if s == "-" else x * y if s == "*" else _fdiv(x, y) if s == "/"
+                          else _fminmax(max if s == "max" else min, x, y))
+    except (IndexError, KeyError):
         return None
+    return st[0] if len(st) == 1 else None
 
 
 def gen_nonfinite_cases(ctx, n: int) -> list[dict]:
-    """Expressions over FINITE inputs whose exact value lies beyond the range of a double (overflowing products and
-    sums, divisions by subnormals, also inside larger expressions): the float result is ±inf or NaN whatever the
-    evaluation order, so the engine must emit None.  Rounds whose exact value is within range are kept only to check
-    that a sample is emitted (an intermediate overflow is out of scope)."""
+    """Expressions over FINITE inputs whose IEEE evaluation is not finite (overflowing products and sums, divisions by
+    subnormals, inf - inf, also inside larger expressions).  Rounds with a finite result are kept only to check that
+    a sample is emitted."""
     cases = []
     for tpl, envs in NONFINITE_TEMPLATES:
         for z in (False, True):
@@ -1052,26 +1097,27 @@ def gen_nonfinite_cases(ctx, n: int) -> list[dict]:
             c = {"kind": "ho", "tree": gen_ho(rng, engines, rng.choice([1, 2])), "z": rng.random() < 0.3}
         a = case_ast(c)
         ids_ = sorted(ast_ids(a))
-        rounds, huge = [], 0
+        rounds, bad = [], 0
         for _try in range(40):
             env = {str(k): rat(rng.choice(EXTREME_POOL)) for k in ids_}
-            v = exact_value(a, env)
-            if v is not None and abs(v) > FLOAT_HUGE:
-                huge += 1
+            if not math.isfinite(float_eval(a, env)):
+                bad += 1
                 rounds.append(env)
-            elif v is not None and len(rounds) - huge < 1 and abs(v) < Fraction(2) ** 900:
+            elif len(rounds) - bad < 1:
                 rounds.append(env)
-            if huge >= 3:
+            if bad >= 3:
                 break
-        if huge:
+        if bad:
             c.update(nonfinite=True, rounds=[{"ts": k + 1, "env": e} for k, e in enumerate(rounds)])
             cases.append(c)
     return cases
 
 
 def check_nonfinite(ctx, cases: list[dict]) -> None:
-    """Real engines on the non-finite-result stream, judged by the independent oracle only; the exact-rational model
-    has no overflow, so only tokens and post-fix steps are compared with it (rounds stripped)."""
+    """Real engines on the non-finite-result stream, judged by the oracle only: when the IEEE value of the expression is
+    not finite — in the independent standard-order evaluation AND in the order of the post-fix program — the sample of
+    that timestamp must be None; in every round exactly one sample.  The exact-rational model has no overflow, so only
+    tokens and post-fix steps are compared with it (rounds stripped)."""
     impl = run_real(cases)
     for c, i in zip(cases, impl):
         a = case_ast(c)
@@ -1084,15 +1130,17 @@ def check_nonfinite(ctx, cases: list[dict]) -> None:
             by_ts.setdefault(ts, []).append(v)
         for rd in c["rounds"]:
             got = by_ts.get(rd["ts"], [])
-            v = exact_value(a, rd["env"])
             if len(got) != 1:
                 ctx.violation("total: not exactly one sample for an input timestamp", c, {"round": rd, "emitted": got})
                 break
-            if (v is None or abs(v) > FLOAT_HUGE) and got[0] is not None:
-                ctx.violation("none-iff: the result is not finite (exact value beyond the range of a double, from finite "
-                              "inputs) but a value was emitted instead of None", c,
-                              {"round": rd, "emitted": got[0], "expected": None,
-                               "exact_value_log2": None if v is None else abs(v).numerator.bit_length() - abs(v).denominator.bit_length()})
-                break
+            std = float_eval(a, rd["env"])
+            pf = postfix_float(i["steps"], rd["env"])
+            if not math.isfinite(std) and pf is not None and not math.isfinite(pf):
+                ctx.tags["round:nonfinite-result"] = ctx.tags.get("round:nonfinite-result", 0) + 1
+                if got[0] is not None:
+                    ctx.violation("none-iff: the result computed from finite inputs is not finite but a value was emitted "
+                                  "instead of None", c, {"round": rd, "emitted": got[0], "expected": None,
+                                                         "ieee_result": repr(std)})
+                    break
     ctx.compare("Formula", [dict(c, rounds=[]) for c in cases], [dict(i, out=[]) if "out" in i else i for i in impl],
                 what="tokens / postfix steps of the non-finite-result stream")
